@@ -58,11 +58,17 @@ CredIds(o) == { o.snap0[k].id : k \in 1..Len(o.snap0) }
 SpentOn(o, id) == { i \in 1..N(o) : /\ o.cers[i].op = "ga" /\ ~Ok(o, i)
                                     /\ \E k \in 1..Len(o.all) : /\ o.all[k].cer = i /\ o.all[k].ev = "Store" /\ o.all[k].d.call = "update"
                                                                 /\ o.all[k].d.ok /\ o.all[k].d.cred.id = id }
-LargestWrong(o, id) ==
+\* the stored value is behind a reported one (a stale write replaced a newer value: the F7 shape can do that) ...
+LargestBehind(o, id) ==
     /\ Assertions(o, id) # {} /\ Has(o.snapF, id)
-    /\ \/ \E i \in Assertions(o, id) : CtrLess(Get(o.snapF, id).ctr, EndOf(o, i)[1].d.ctr)
-       \/ /\ SpentOn(o, id) = {}
-          /\ \A i \in Assertions(o, id) : EndOf(o, i)[1].d.ctr # Get(o.snapF, id).ctr
+    /\ \E i \in Assertions(o, id) : CtrLess(Get(o.snapF, id).ctr, EndOf(o, i)[1].d.ctr)
+\* ... or it is a value no successful assertion reported although no failed ceremony spent one.  F7 cannot do that:
+\* when every write is "seen + 1" and is stored as written, the stored value is the last writer's reported value.
+LargestAhead(o, id) ==
+    /\ Assertions(o, id) # {} /\ Has(o.snapF, id) /\ ~LargestBehind(o, id)
+    /\ SpentOn(o, id) = {}
+    /\ \A i \in Assertions(o, id) : EndOf(o, i)[1].d.ctr # Get(o.snapF, id).ctr
+LargestWrong(o, id) == LargestBehind(o, id) \/ LargestAhead(o, id)
 
 \* C05 under concurrency.  The store API has no delete, so a credential held when the ceremonies began is held
 \* throughout: a registration whose non-empty exclude list names one held for its RP must be refused whatever the
@@ -106,8 +112,8 @@ Violated(o) ==
           THEN {"C19.DistinctCounters"} ELSE {})
     \cup (IF o.final /\ \E id \in CredIds(o) : Dups(o, id) # {} /\ StaleUpdate(o, id)
           THEN {"C19.DistinctCounters.StaleUpdate"} ELSE {})
-    \cup (IF o.final /\ \E id \in CredIds(o) : LargestWrong(o, id) /\ ~StaleUpdate(o, id)
+    \cup (IF o.final /\ \E id \in CredIds(o) : (LargestBehind(o, id) /\ ~StaleUpdate(o, id)) \/ LargestAhead(o, id)
           THEN {"C19.LargestIsStored"} ELSE {})
-    \cup (IF o.final /\ \E id \in CredIds(o) : LargestWrong(o, id) /\ StaleUpdate(o, id)
+    \cup (IF o.final /\ \E id \in CredIds(o) : LargestBehind(o, id) /\ StaleUpdate(o, id)
           THEN {"C19.LargestIsStored.StaleUpdate"} ELSE {})
 =============================================================================
